@@ -235,6 +235,7 @@ type summary struct {
 	NodeKinds  []string         `json:"node_kinds,omitempty"`
 	HarnessErr []string         `json:"harness_errors,omitempty"`
 	WallS      float64          `json:"wall_s"`
+	NotRun     int64            `json:"not_run"`
 	Duplicates int64            `json:"duplicate_lines"`
 	Lines      int64            `json:"distinct_lines"`
 }
@@ -243,7 +244,9 @@ func replayMain(args []string) {
 	fs := flag.NewFlagSet("replay", flag.ExitOnError)
 	outPath := fs.String("out", "", "summary file")
 	workers := fs.Int("workers", 16, "child processes")
-	timeout := fs.Duration("timeout", 10*time.Second, "per-case budget")
+	timeout := fs.Duration("timeout", 3*time.Second, "per-case budget")
+	maxHangs := fs.Int64("maxhangs", 12, "stop replaying after this many confirmed hangs or crashes")
+	var hangs atomic.Int64
 	keep := fs.Int("keep", 400, "violations kept with full detail")
 	nsamples := fs.Int("samples", 6, "samples kept")
 	logPath := fs.String("log", "", "file receiving the non-case lines of the input (TLC's own output)")
@@ -337,6 +340,12 @@ func replayMain(args []string) {
 					continue
 				}
 				for _, m := range subs {
+				if hangs.Load() >= *maxHangs {
+					mu.Lock()
+					sum.NotRun++
+					mu.Unlock()
+					continue
+				}
 				line, _ := json.Marshal(m)
 				if c == nil {
 					c, err = startChild()
@@ -373,6 +382,7 @@ func replayMain(args []string) {
 					c2.kill()
 				}
 				if confirmed {
+					hangs.Add(1)
 					res := Result{Class: why, Detail: firstLines(stderr, 40)}
 					if why == "hang" {
 						res.Detail = fmt.Sprintf("no answer within %v (twice, second time with double budget in a fresh process)", budget)
@@ -504,6 +514,31 @@ func loadPool(dir, name string) ([]any, error) {
 // expandPool turns a case that carries one admissible set per document of a
 // named pool ("pool", "adms") into one case per document ("doc", "adm").
 func expandPool(m map[string]any, dir string) ([]map[string]any, error) {
+	if multi, ok := m["multi"].([]any); ok {
+		// a batch: shared fields at the top, one map of overriding fields per case
+		var out []map[string]any
+		for _, x := range multi {
+			sub, ok := x.(map[string]any)
+			if !ok {
+				return nil, fmt.Errorf("multi: element is %T", x)
+			}
+			c := make(map[string]any, len(m)+len(sub))
+			for k, v := range m {
+				if k != "multi" {
+					c[k] = v
+				}
+			}
+			for k, v := range sub {
+				c[k] = v
+			}
+			more, err := expandPool(c, dir)
+			if err != nil {
+				return nil, err
+			}
+			out = append(out, more...)
+		}
+		return out, nil
+	}
 	name, ok := m["pool"].(string)
 	if !ok {
 		return []map[string]any{m}, nil
